@@ -53,6 +53,15 @@ theorem difference_branches :
     seqCalls .storeChannelPts .boxSetPts [] orders.chDiffDifference = diffShape ∧
     seqCalls .storeChannelPts .boxSetPts [] orders.chDiffEmpty = emptyShape := by decide
 
+/-- **A difference dispatches everything it carries** — also updates that cover no position
+(`count = 0`, e.g. updateReadChannelInbox), which the coverage theorems exempt because a lost push
+of them can never be recovered: whatever the box, a `diffShape` step with a non-empty `direct`
+dispatches exactly `direct`, before the store. -/
+theorem difference_dispatches_what_it_carries (c : ACfg) (b : Box) (x : Int) (direct : List Entry) (h : direct ≠ []) :
+    (sstep c b (.seq diffShape x direct)).2 = [.dispatch (direct.map (·.id)), .store x] := by
+  have : (direct.map (·.id)).isEmpty = false := by cases direct <;> simp_all
+  simp [sstep, diffShape, callEvs, this]
+
 /-- A slice continues fetching; a non-final channel difference continues too (the model's
 `recurse`). -/
 theorem slices_continue : orders.diffSlice.contains .recurse = true ∧ orders.chDiffDifference.contains .recurse = true := by
@@ -72,12 +81,12 @@ included), any start position `lo`, and any well-formed op list (arbitrary pushe
 loss, duplication, reordering, affected results early/late/never — gap clears, honest differences
 in one piece or sliced) that ends at or above every log position (a completed recovery): every
 non-marker log entry above `lo` has been dispatched, unless too-long was reported. -/
-theorem C02_recovery_complete (k : Nat) (mk : Nat → Bool) (log : List Entry) (c0 lo : Int) (hc0 : 0 ≤ c0)
+theorem C02_recovery_complete (k : Nat) (mk : Nat → Bool) (log : List Entry) (c0 lo : Int)
     (ht : tiled c0 log = true) (ops : List SOp)
     (hw : wfRun (applyCfgOf orders mk k) log { state := lo } ops = true)
     (hrec : ∀ e ∈ log, e.pos ≤ (srun (applyCfgOf orders mk k) { state := lo } ops).1.state) :
     complete log mk lo (srun (applyCfgOf orders mk k) { state := lo } ops).2 = true := by
-  have hinv := (srun_inv log (applyCfgOf orders mk k) (apply_callbacks_good mk k) c0 lo hc0 ht ops _ _ _
+  have hinv := (srun_inv log (applyCfgOf orders mk k) (apply_callbacks_good mk k) c0 lo ht ops _ _ _
     (inv_init log mk lo) hw).2
   unfold complete
   rw [complete_iff]
@@ -94,12 +103,12 @@ theorem C02_recovery_complete (k : Nat) (mk : Nat → Bool) (log : List Entry) (
 /-- A final difference up to position `x` is such a recovery when `x` is at or above every log
 position. -/
 theorem C02_final_difference_recovers (k : Nat) (mk : Nat → Bool) (log : List Entry) (c0 lo : Int)
-    (hc0 : 0 ≤ c0) (ht : tiled c0 log = true) (ops : List SOp) (x : Int) (direct : List Entry)
+    (ht : tiled c0 log = true) (ops : List SOp) (x : Int) (direct : List Entry)
     (hw : wfRun (applyCfgOf orders mk k) log { state := lo } (ops ++ [.seq diffShape x direct]) = true)
     (hx : ∀ e ∈ log, e.pos ≤ x) :
     complete log mk lo
       (srun (applyCfgOf orders mk k) { state := lo } (ops ++ [.seq diffShape x direct])).2 = true := by
-  apply C02_recovery_complete k mk log c0 lo hc0 ht _ hw
+  apply C02_recovery_complete k mk log c0 lo ht _ hw
   intro e he
   rw [srun_append]
   simp only [srun, sstep, diffShape]
@@ -197,7 +206,7 @@ theorem C02_manager_recovery_complete (w : World) (fp fq : Int) (fc : List (Nat 
   obtain ⟨hw, htr, hbox⟩ := mgr_projects orders orders_good w fp fq fc hscn acts k hk
   rw [htr]
   apply C02_recovery_complete k (mkOf w.log) (seqLog w.log k) _ (initOf fp fq fc k)
-    (hscn.orgNonneg k hk) (hscn.tiledK k hk) _ hw
+    (hscn.tiledK k hk) _ hw
   intro e he
   rw [hb] at hbox
   rw [← Option.some.inj hbox]
